@@ -125,6 +125,26 @@ type Owner struct {
 	Badge     Badge  `gorm:"polymorphic:Subject"`
 }
 
+// PlainOwner is the hook-less twin of Owner: same table, same relations, no
+// hook methods at all (gorm may treat a model without hooks differently; the
+// associations its records carry are saved all the same).
+type PlainOwner struct {
+	ID        uint `gorm:"primaryKey"`
+	Name      string
+	Val       int
+	UpdatedAt time.Time
+	Code      *string
+	CompanyID *uint
+	Company   *Company
+	Profile   *Profile `gorm:"foreignKey:OwnerID"`
+	Items     []Item   `gorm:"foreignKey:OwnerID"`
+	Tags      []*Tag   `gorm:"many2many:owner_tags;joinForeignKey:OwnerID;joinReferences:TagID"`
+	Notes     []Note   `gorm:"polymorphic:Subject;polymorphicValue:owners"`
+	Badge     Badge    `gorm:"polymorphic:Subject;polymorphicValue:owners"`
+}
+
+func (PlainOwner) TableName() string { return "owners" }
+
 // Audit rows are written by the hooks of Owner when the case asks for it
 // (writes made by a hook through the handle it is given belong to the operation).
 type Audit struct {
@@ -392,6 +412,18 @@ func (s OwnerSpec) build() *Owner {
 	return o
 }
 
+// buildPlain builds the same graph on the hook-less twin (no back-references:
+// Tag.Owners points at Owner values).
+func (s OwnerSpec) buildPlain() *PlainOwner {
+	var o Owner
+	s.buildInto(&o)
+	for _, tg := range o.Tags {
+		tg.Owners = nil
+	}
+	return &PlainOwner{ID: o.ID, Name: o.Name, Val: o.Val, Code: o.Code, Company: o.Company, Profile: o.Profile,
+		Items: o.Items, Tags: o.Tags, Notes: o.Notes, Badge: o.Badge}
+}
+
 // buildInto fills o in place (back-references point at o itself).
 func (s OwnerSpec) buildInto(o *Owner) {
 	*o = Owner{ID: s.ID, Name: s.Name, Val: s.Val}
@@ -482,6 +514,8 @@ type Op struct {
 	NoReturning bool        `json:"noreturning,omitempty"` // dialector without RETURNING support
 	Audit       bool        `json:"audit,omitempty"`       // Owner hooks write an audit row through their handle
 	AuditVia    string      `json:"auditvia,omitempty"`    // "session": the audit row is created through tx.Session(NewDB+SkipDefaultTransaction); "batches"/"transaction": a block of 3 rows through tx.CreateInBatches(…, 2) / tx.Transaction
+	Plain       bool        `json:"plain,omitempty"`       // the root record is a PlainOwner: hook-less twin of Owner
+	Scope       string      `json:"scope,omitempty"`       // Scopes(func): identity | where | session (returns d.Session(&Session{})) | with-context
 	Conflict    string      `json:"conflict,omitempty"`    // create kinds: Clauses(clause.OnConflict{...}): nothing | update-all | columns
 	Cols        []string    `json:"cols,omitempty"`        // create/save/updates: Select(cols)
 	Omit        []string    `json:"omit,omitempty"`        // create/save/updates: Omit(cols)
@@ -653,8 +687,34 @@ func ownerMap(s OwnerSpec) map[string]interface{} {
 	return m
 }
 
+// record builds the i-th root record: *Owner or its hook-less twin.
+func (op Op) record(i int) interface{} {
+	if op.Plain {
+		return op.Owners[i].buildPlain()
+	}
+	return op.Owners[i].build()
+}
+
+// keyed returns an empty root record carrying only the key.
+func (op Op) keyed(id uint) interface{} {
+	if op.Plain {
+		return &PlainOwner{ID: id}
+	}
+	return &Owner{ID: id}
+}
+
 func (op Op) exec1(db *gorm.DB) *gorm.DB {
 	root := db
+	switch op.Scope {
+	case "identity":
+		db = db.Scopes(func(d *gorm.DB) *gorm.DB { return d })
+	case "where":
+		db = db.Scopes(func(d *gorm.DB) *gorm.DB { return d.Where("1 = 1") })
+	case "session":
+		db = db.Scopes(func(d *gorm.DB) *gorm.DB { return d.Session(&gorm.Session{}) })
+	case "with-context":
+		db = db.Scopes(func(d *gorm.DB) *gorm.DB { return d.WithContext(d.Statement.Context) })
+	}
 	if op.Returning {
 		db = db.Clauses(clause.Returning{})
 	}
@@ -681,7 +741,7 @@ func (op Op) exec1(db *gorm.DB) *gorm.DB {
 	}
 	switch op.Kind {
 	case kCreate:
-		return db.Create(op.Owners[0].build())
+		return db.Create(op.record(0))
 	case kCreateSlice:
 		if op.Form == "array" {
 			var v [2]Owner
@@ -719,7 +779,7 @@ func (op Op) exec1(db *gorm.DB) *gorm.DB {
 		v := ownerSlice(op.Owners)
 		return db.CreateInBatches(&v, op.Batch)
 	case kSave, kSaveMissing:
-		return db.Save(op.Owners[0].build())
+		return db.Save(op.record(0))
 	case kSaveSlice:
 		if op.Ptrs {
 			v := ownerPtrs(op.Owners)
@@ -729,9 +789,9 @@ func (op Op) exec1(db *gorm.DB) *gorm.DB {
 		return db.Save(&v)
 	case kUpdatesFull:
 		if op.FullVia == "config" {
-			return db.Updates(op.Owners[0].build())
+			return db.Updates(op.record(0))
 		}
-		return db.Session(&gorm.Session{FullSaveAssociations: true}).Updates(op.Owners[0].build())
+		return db.Session(&gorm.Session{FullSaveAssociations: true}).Updates(op.record(0))
 	case kUpdatesMap:
 		vals := map[string]interface{}{"name": op.NewName, "val": op.NewVal}
 		if op.Form == "slice-model" {
@@ -741,17 +801,24 @@ func (op Op) exec1(db *gorm.DB) *gorm.DB {
 			}
 			return db.Model(&v).Updates(vals)
 		}
-		return db.Model(op.Owners[0].build()).Updates(vals)
+		return db.Model(op.record(0)).Updates(vals)
 	case kUpdatesStruct:
+		if op.Plain {
+			return db.Model(&PlainOwner{ID: op.IDs[0]}).Updates(PlainOwner{Name: op.NewName, Val: op.NewVal})
+		}
 		return db.Model(&Owner{ID: op.IDs[0]}).Updates(Owner{Name: op.NewName, Val: op.NewVal})
 	case kUpdateCol:
 		switch op.Form {
 		case "struct":
-			return db.Model(&Owner{ID: op.IDs[0]}).Update("name", op.NewName)
+			return db.Model(op.keyed(op.IDs[0])).Update("name", op.NewName)
+		case "graph":
+			// the record handed to Model carries association values: they are
+			// saved by the update pipeline around the single-column UPDATE
+			return db.Model(op.record(0)).Update("name", op.NewName)
 		case "expr":
-			return db.Model(&Owner{ID: op.IDs[0]}).Update("val", gorm.Expr("val + ?", 100))
+			return db.Model(op.keyed(op.IDs[0])).Update("val", gorm.Expr("val + ?", 100))
 		case "update-column":
-			return db.Model(&Owner{ID: op.IDs[0]}).UpdateColumn("name", op.NewName)
+			return db.Model(op.keyed(op.IDs[0])).UpdateColumn("name", op.NewName)
 		case "update-columns":
 			return db.Model(&Owner{}).Where("id IN ?", op.IDs).UpdateColumns(map[string]interface{}{"name": op.NewName, "val": 100})
 		case "subquery":
@@ -769,7 +836,7 @@ func (op Op) exec1(db *gorm.DB) *gorm.DB {
 		}
 		switch op.Form {
 		case "struct":
-			return tx.Delete(&Owner{ID: op.IDs[0]})
+			return tx.Delete(op.keyed(op.IDs[0]))
 		case "slice":
 			v := make([]Owner, len(op.IDs))
 			for i, id := range op.IDs {
@@ -1116,14 +1183,25 @@ type runResult struct {
 	swallowed int
 	audits    []string // audits.msg after the operation
 	histErr   string
+	hung      bool // the operation did not return within opTimeout
 	openTx    int
 	inUse     int
 	fired     bool
 }
 
-func runOnce(base *content, op Op, f fault) runResult {
+// opTimeout bounds one operation: a fault-free or singly faulted write on an
+// in-memory database takes milliseconds; one that has not returned after this
+// long is stuck (e.g. db.Connection waiting to close a connection on which the
+// operation left its transaction open).
+const opTimeout = 20 * time.Second
+
+func runOnce(base *content, op Op, f fault) (r runResult) {
 	d := freshDB(base, op)
-	defer d.Close()
+	defer func() {
+		if !r.hung { // closing the pool of a stuck operation could block as well
+			d.Close()
+		}
+	}()
 	// history before the operation: sessions derived from the default handle
 	for _, ps := range op.Pre {
 		s := d.DB.Session(sessionOptions[ps.Opt]())
@@ -1132,7 +1210,6 @@ func runOnce(base *content, op Op, f fault) runResult {
 			s.Model(&Owner{}).Count(&n)
 		}
 	}
-	var r runResult
 	r.pre = base.text
 	// ... and writes made through the handle: one that succeeds, one whose
 	// first hook fails (it must itself be reported and leave nothing)
@@ -1193,7 +1270,21 @@ func runOnce(base *content, op Op, f fault) runResult {
 		}
 		return nil
 	})
-	res := op.exec(handle)
+	done := make(chan *gorm.DB, 1)
+	go func() { done <- op.exec(handle) }()
+	var res *gorm.DB
+	select {
+	case res = <-done:
+	case <-time.After(opTimeout):
+		plan = nil
+		r.hung = true
+		r.events = d.Rec.Events()
+		r.hooks = p.log
+		r.openTx = d.Rec.OpenTx()
+		r.inUse = d.SQL.Stats().InUse
+		r.fired = true
+		return r
+	}
 	plan = nil
 	d.Rec.SetRowsFault(nil)
 	d.Rec.TrackRows(false)
@@ -1341,14 +1432,17 @@ func checkCase(t fataler, c Case, base *content) {
 	if ref.histErr != "" {
 		t.Fatalf("C05 violated: %s\n  case: %s", ref.histErr, desc)
 	}
+	if ref.hung {
+		t.Fatalf("C05 violated: the fault-free operation did not return within %v (%d transaction(s) open, %d connection(s) checked out)\n  case: %s\n  driver calls:\n%s", opTimeout, ref.openTx, ref.inUse, desc, eventLog(ref.events))
+	}
 	if ref.err != nil {
 		t.Fatalf("C05 violated: the fault-free operation failed: %v\n  case: %s\n  driver calls:\n%s", ref.err, desc, eventLog(ref.events))
 	}
-	if ref.dumpErr != nil {
-		t.Fatalf("C05 violated: tables unreadable after the fault-free operation: %v (open transactions %d, connections in use %d)\n  case: %s", ref.dumpErr, ref.openTx, ref.inUse, desc)
-	}
 	if ref.openTx != 0 || ref.inUse != 0 {
 		t.Fatalf("C05 violated: after the fault-free operation %d transaction(s) open, %d connection(s) checked out\n  case: %s\n  driver calls:\n%s", ref.openTx, ref.inUse, desc, eventLog(ref.events))
+	}
+	if ref.dumpErr != nil {
+		t.Fatalf("C05 violated: tables unreadable after the fault-free operation: %v (open transactions %d, connections in use %d)\n  case: %s", ref.dumpErr, ref.openTx, ref.inUse, desc)
 	}
 	if ref.dump == ref.pre {
 		// The fault-free run changed nothing. Sessions derived before the
@@ -1406,6 +1500,9 @@ func checkCase(t fataler, c Case, base *content) {
 			desc, f, posLabel, N, H, eventLog(r.events), hookNames(r.hooks))
 		if r.histErr != "" {
 			t.Fatalf("C05 violated: %s%s", r.histErr, where)
+		}
+		if r.hung {
+			t.Fatalf("C05 violated: the failed operation did not return within %v: %d transaction(s) still open, %d connection(s) still checked out (an unfinished transaction blocks the release of its connection)%s", opTimeout, r.openTx, r.inUse, where)
 		}
 		if !r.fired {
 			t.Fatalf("harness: the planned fault was never reached (the operation is not deterministic)%s", where)
@@ -1497,6 +1594,9 @@ func checkCase(t fataler, c Case, base *content) {
 			append(append([]string(nil), shapeList...), "fault:"+posLabel)...)
 		where := fmt.Sprintf("\n  case: %s\n  fault: %s (%s) of N=%d driver calls, H=%d hook invocations\n  driver calls of the run:\n%s  hooks of the run: %v",
 			desc, f, posLabel, N, H, eventLog(r.events), hookNames(r.hooks))
+		if r.hung {
+			t.Fatalf("C05 violated: the operation whose context was cancelled did not return within %v: %d transaction(s) still open, %d connection(s) still checked out%s", opTimeout, r.openTx, r.inUse, where)
+		}
 		if !r.fired {
 			t.Fatalf("harness: the planned hook invocation was never reached (the operation is not deterministic)%s", where)
 		}
@@ -1555,6 +1655,12 @@ func opShapes(op Op, multi bool) []string {
 	}
 	if op.CustomJoin {
 		shape["join:custom-model-with-hooks"] = true
+	}
+	if op.Plain {
+		shape["model:hook-less-root"] = true
+	}
+	if op.Scope != "" {
+		shape["chain:scopes:"+op.Scope] = true
 	}
 	if op.Form != "" && op.Kind != kDelete {
 		shape["form:"+op.Kind+":"+op.Form] = true
@@ -1643,6 +1749,9 @@ func opShapes(op Op, multi bool) []string {
 func checkNatural(t fataler, c Case, base *content) {
 	desc := c.String()
 	r := runOnce(base, c.Op, fault{})
+	if r.hung {
+		t.Fatalf("C05 violated: the operation (which fails by itself on a unique index) did not return within %v: %d transaction(s) open, %d connection(s) checked out\n  case: %s\n  driver calls:\n%s", opTimeout, r.openTx, r.inUse, desc, eventLog(r.events))
+	}
 	fe := faultableEvents(r.events)
 	tablesTouched := map[string]bool{}
 	firstWrite, failedAt := -1, -1
@@ -2082,11 +2191,15 @@ func drawCase(t *rapid.T) (Case, *content) {
 		op.NewName = "new-" + nameGen.Draw(t, "new-name")
 		op.NewVal = rapid.IntRange(10, 19).Draw(t, "new-val")
 	case kUpdateCol:
-		op.Form = rapid.SampledFrom([]string{"struct", "where", "expr", "update-column", "update-columns", "subquery"}).Draw(t, "form")
+		op.Form = rapid.SampledFrom([]string{"struct", "graph", "graph", "where", "expr", "update-column", "update-columns", "subquery"}).Draw(t, "form")
 		op.IDs = pickExisting(t, base.ids["owners"], 3)
 		switch op.Form {
 		case "struct", "expr", "update-column":
 			op.IDs = op.IDs[:1]
+		case "graph":
+			op.IDs = op.IDs[:1]
+			ids.owners.used[op.IDs[0]] = true
+			op.Owners = []OwnerSpec{drawOwner(t, ids, op.IDs[0], false)}
 		}
 		op.NewName = "new-" + nameGen.Draw(t, "new-name")
 	case kDeleteNote:
@@ -2105,6 +2218,23 @@ func drawCase(t *rapid.T) (Case, *content) {
 		op.Select = rapid.SampledFrom(deleteSelects).Draw(t, "select")
 		op.Unscoped = rapid.IntRange(0, 3).Draw(t, "unscoped") == 0
 	}
+	// hook-less twin of the root model, where the operation takes one record
+	switch {
+	case kind == kCreate, kind == kSave, kind == kSaveMissing, kind == kUpdatesFull, kind == kUpdatesStruct,
+		kind == kUpdatesMap && op.Form == "",
+		kind == kUpdateCol && (op.Form == "struct" || op.Form == "graph" || op.Form == "expr" || op.Form == "update-column"),
+		kind == kDelete && op.Form == "struct":
+		if rapid.IntRange(0, 2).Draw(t, "hook-less-root") == 0 {
+			op.Plain = true
+			op.Audit, op.AuditVia, op.Swallow, op.AuditFail = false, "", false, "" // only Owner hooks write audit rows
+			for i := range op.Owners {
+				for j := range op.Owners[i].Tags {
+					op.Owners[i].Tags[j].BackRef = false
+				}
+			}
+		}
+	}
+	op.Scope = rapid.SampledFrom([]string{"", "", "", "", "", "", "", "", "", "", "identity", "identity", "where", "where", "session", "with-context"}).Draw(t, "scope")
 	op.OnConn = !op.InTx && rapid.IntRange(0, 7).Draw(t, "on-connection") == 0
 	// Select / Omit of columns and associations (the unique code is always
 	// among the selected columns)
@@ -2176,6 +2306,10 @@ func TestC05(t *testing.T) {
 		}
 		if hookBlockInAssociationSave(c) && harness.OpenClass("C05", classHookBlockAssoc) {
 			evid.Excluded(classHookBlockAssoc)
+			return
+		}
+		if scopeReturnsSession(c) && harness.OpenClass("C05", classScopeSession) {
+			evid.Excluded(classScopeSession)
 			return
 		}
 		evid.Journal(c.String())
@@ -2252,6 +2386,34 @@ func TestC05WitnessHookBlockInAssociationSave(t *testing.T) {
 	for _, via := range []string{"transaction", "batches"} {
 		c := Case{Op: Op{Kind: kCreate, Audit: true, AuditVia: via, AuditFail: "natural", Swallow: true,
 			Owners: []OwnerSpec{{Name: "ow-a", Val: 1, Tags: []TagSpec{{Name: "tg-a", BackRef: true}}}}}}
+		base, err := materialize(c.Init)
+		if err != nil {
+			t.Fatalf("harness: %v", err)
+		}
+		checkCase(t, c, base)
+	}
+}
+
+// classScopeSession: the operation is chained after Scopes(func) whose function
+// returns a Session-derived handle (d.Session(&gorm.Session{}), d.WithContext).
+// processor.Execute continues with that handle, which is not an instance
+// (clone > 0): BeginTransaction's db.InstanceSet("gorm:started_transaction")
+// goes through getInstance() and stores the flag under the address of a cloned
+// Statement, CommitOrRollbackTransaction's InstanceGet never finds it. The
+// write returns Error == nil, no COMMIT or ROLLBACK is sent, the transaction
+// stays open and its connection checked out.
+const classScopeSession = "scope-returns-session-handle"
+
+func scopeReturnsSession(c Case) bool {
+	return c.Op.Scope == "session" || c.Op.Scope == "with-context"
+}
+
+// TestC05WitnessScopeSessionHandle: Create(&Owner{}) after Scopes(func(d) {
+// return d.Session(&gorm.Session{}) }) / d.WithContext(ctx): the fault-free
+// operation must finish its transaction. Fails while the defect exists.
+func TestC05WitnessScopeSessionHandle(t *testing.T) {
+	for _, sc := range []string{"session", "with-context"} {
+		c := Case{Op: Op{Kind: kCreate, Scope: sc, Owners: []OwnerSpec{{Name: "ow-a", Val: 1}}}}
 		base, err := materialize(c.Init)
 		if err != nil {
 			t.Fatalf("harness: %v", err)
